@@ -2,6 +2,8 @@
 #include "../gen.h"
 
 #include <sys/wait.h>
+#include <cstring>
+#include <cctype>
 
 using namespace vf;
 namespace WB = WorldBuilder;
@@ -17,57 +19,244 @@ static int run_cmd(const std::string &cmd, std::string &out)
   return WIFEXITED(st) ? WEXITSTATUS(st) : 128 + (WIFSIGNALED(st) ? WTERMSIG(st) : 0);
 }
 
-// ---------------------------------------------------------------- minimal reader of the ASCII VTU files the tool writes
+// ---------------------------------------------------------------- reader of VTK XML UnstructuredGrid files, written from the VTK file
+// format description and independent of the writer under test. DataArray formats: "ascii"; "binary" (base64 inline: a header of
+// header_type giving the byte count, then the data); "appended" with an <AppendedData encoding="base64|raw"> section addressed by
+// offset (uncompressed: [bytes][data]; with compressor="vtkZLibDataCompressor": [#blocks][block size][last block size][compressed
+// sizes...] followed by the zlib blocks). A base64 stream is decoded quantum by quantum, so a header that was encoded on its own
+// (with '=' padding) and one encoded together with its data are both read, as VTK's own reader does.
 struct Vtu
 {
   bool ok = false;
   std::string error;
   long n_points = -1, n_cells = -1;
+  std::string format;
   std::map<std::string, std::vector<double>> arrays; // by Name; the unnamed Points array is "Points"
 };
 static std::string attr(const std::string &tag, const std::string &name)
 {
-  const size_t p = tag.find(name + "=\"");
+  size_t p = 0;
+  while ((p = tag.find(name + "=\"", p)) != std::string::npos)
+    {
+      if (p == 0 || tag[p - 1] == ' ' || tag[p - 1] == '\n' || tag[p - 1] == '\t') break;
+      ++p;
+    }
   if (p == std::string::npos) return "";
   const size_t a = p + name.size() + 2, b = tag.find('"', a);
   return tag.substr(a, b - a);
 }
+static size_t type_size(const std::string &t)
+{
+  if (t == "Float64" || t == "Int64" || t == "UInt64") return 8;
+  if (t == "Float32" || t == "Int32" || t == "UInt32") return 4;
+  if (t == "Int16" || t == "UInt16") return 2;
+  if (t == "Int8" || t == "UInt8") return 1;
+  return 0;
+}
+static double read_as(const std::string &t, const unsigned char *p)
+{
+  if (t == "Float64") { double v; std::memcpy(&v, p, 8); return v; }
+  if (t == "Float32") { float v; std::memcpy(&v, p, 4); return v; }
+  if (t == "Int64") { int64_t v; std::memcpy(&v, p, 8); return static_cast<double>(v); }
+  if (t == "UInt64") { uint64_t v; std::memcpy(&v, p, 8); return static_cast<double>(v); }
+  if (t == "Int32") { int32_t v; std::memcpy(&v, p, 4); return v; }
+  if (t == "UInt32") { uint32_t v; std::memcpy(&v, p, 4); return v; }
+  if (t == "Int16") { int16_t v; std::memcpy(&v, p, 2); return v; }
+  if (t == "UInt16") { uint16_t v; std::memcpy(&v, p, 2); return v; }
+  if (t == "Int8") { int8_t v; std::memcpy(&v, p, 1); return v; }
+  uint8_t v; std::memcpy(&v, p, 1); return v;
+}
+// decodes `want` bytes from the base64 text starting at text[pos]; advances pos past the quanta consumed; false if the text ends or
+// holds a character outside the alphabet before `want` bytes were obtained
+static bool b64_take(const std::string &text, size_t &pos, size_t end, size_t want, std::vector<unsigned char> &out)
+{
+  auto val = [](char ch) -> int {
+    if (ch >= 'A' && ch <= 'Z') return ch - 'A';
+    if (ch >= 'a' && ch <= 'z') return ch - 'a' + 26;
+    if (ch >= '0' && ch <= '9') return ch - '0' + 52;
+    if (ch == '+') return 62;
+    if (ch == '/') return 63;
+    return -1;
+  };
+  out.clear();
+  while (out.size() < want)
+    {
+      if (pos + 4 > end) return false;
+      int v[4]; int pad = 0;
+      for (int i = 0; i < 4; ++i)
+        {
+          const char ch = text[pos + static_cast<size_t>(i)];
+          if (ch == '=') { v[i] = 0; pad++; }
+          else { v[i] = val(ch); if (v[i] < 0 || pad) return false; }
+        }
+      if (pad > 2) return false;
+      pos += 4;
+      const unsigned b = (static_cast<unsigned>(v[0]) << 18) | (static_cast<unsigned>(v[1]) << 12) | (static_cast<unsigned>(v[2]) << 6) | static_cast<unsigned>(v[3]);
+      out.push_back(static_cast<unsigned char>(b >> 16));
+      if (pad < 2) out.push_back(static_cast<unsigned char>((b >> 8) & 255));
+      if (pad < 1) out.push_back(static_cast<unsigned char>(b & 255));
+    }
+  return true;
+}
+#ifdef VF_HAVE_ZLIB
+#include <zlib.h>
+#endif
 static Vtu read_vtu(const std::string &path)
 {
   Vtu v;
-  std::ifstream f(path);
+  std::ifstream f(path, std::ios::binary);
   if (!f) { v.error = "cannot open " + path; return v; }
   std::stringstream ss; ss << f.rdbuf();
   const std::string t = ss.str();
-  if (t.find("<VTKFile") == std::string::npos || t.find("</VTKFile>") == std::string::npos) { v.error = "not a complete VTKFile document"; return v; }
+  const size_t vf = t.find("<VTKFile");
+  if (vf == std::string::npos || t.rfind("</VTKFile>") == std::string::npos) { v.error = "not a complete VTKFile document"; return v; }
+  const std::string head = t.substr(vf, t.find('>', vf) - vf);
+  std::string header_type = attr(head, "header_type");
+  if (header_type.empty()) header_type = "UInt32";
+  const size_t hs = type_size(header_type);
+  if (hs != 4 && hs != 8) { v.error = "header_type " + header_type; return v; }
+  if (attr(head, "byte_order") != "LittleEndian") { v.error = "byte_order is '" + attr(head, "byte_order") + "' on a little-endian machine"; return v; }
+  const bool compressed = !attr(head, "compressor").empty();
+  if (compressed && attr(head, "compressor") != "vtkZLibDataCompressor") { v.error = "unknown compressor " + attr(head, "compressor"); return v; }
   const size_t pc = t.find("<Piece");
   if (pc == std::string::npos) { v.error = "no Piece"; return v; }
   const std::string piece = t.substr(pc, t.find('>', pc) - pc);
   v.n_points = std::atol(attr(piece, "NumberOfPoints").c_str());
   v.n_cells = std::atol(attr(piece, "NumberOfCells").c_str());
+  // the appended section, if any
+  size_t app_begin = std::string::npos, app_end = std::string::npos;
+  std::string app_encoding;
+  const size_t ap = t.find("<AppendedData");
+  const size_t xml_end = ap == std::string::npos ? t.size() : ap;
+  if (ap != std::string::npos)
+    {
+      const size_t e = t.find('>', ap);
+      app_encoding = attr(t.substr(ap, e - ap), "encoding");
+      const size_t us = t.find('_', e);
+      const size_t close = t.rfind("</AppendedData>");
+      if (us == std::string::npos || close == std::string::npos || close < us) { v.error = "AppendedData section without '_' marker or end tag"; return v; }
+      app_begin = us + 1; app_end = close;
+      if (app_encoding != "base64" && app_encoding != "raw") { v.error = "AppendedData encoding '" + app_encoding + "'"; return v; }
+    }
+  auto header_value = [&](const unsigned char *p) -> uint64_t { if (hs == 8) { uint64_t x; std::memcpy(&x, p, 8); return x; } uint32_t x; std::memcpy(&x, p, 4); return x; };
   size_t pos = 0;
   const size_t points_at = t.find("<Points>");
-  while ((pos = t.find("<DataArray", pos)) != std::string::npos)
+  while ((pos = t.find("<DataArray", pos)) != std::string::npos && pos < xml_end)
     {
       const size_t e = t.find('>', pos);
       const std::string tag = t.substr(pos, e - pos);
-      const size_t close = t.find("</DataArray>", e);
-      if (close == std::string::npos) { v.error = "unterminated DataArray"; return v; }
+      const bool empty_tag = e > 0 && t[e - 1] == '/';
       std::string name = attr(tag, "Name");
       if (name.empty() && points_at != std::string::npos && pos > points_at) name = "Points";
-      if (attr(tag, "format") != "ascii") { v.error = "DataArray " + name + " is not ascii"; return v; }
+      const std::string fmt_ = attr(tag, "format"), type = attr(tag, "type");
+      const size_t ts = type_size(type);
+      if (ts == 0) { v.error = "DataArray " + name + ": type '" + type + "'"; return v; }
+      if (v.format.empty()) v.format = fmt_ + (fmt_ == "appended" ? "/" + app_encoding : "") + (compressed ? "/zlib" : "");
       std::vector<double> vals;
-      const char *p = t.c_str() + e + 1, *end = t.c_str() + close;
-      while (p < end)
+      std::vector<unsigned char> bytes;
+      bool have_bytes = false;
+      size_t close = e;
+      if (fmt_ == "ascii")
         {
-          char *q = nullptr;
-          const double d = std::strtod(p, &q);
-          if (q == p) { ++p; continue; }
-          vals.push_back(d);
-          p = q;
+          close = t.find("</DataArray>", e);
+          if (empty_tag || close == std::string::npos) { v.error = "unterminated DataArray " + name; return v; }
+          const char *p = t.c_str() + e + 1, *end = t.c_str() + close;
+          while (p < end)
+            {
+              char *q = nullptr;
+              const double d = std::strtod(p, &q);
+              if (q == p) { ++p; continue; }
+              vals.push_back(d);
+              p = q;
+            }
         }
+      else if (fmt_ == "binary")
+        {
+          close = t.find("</DataArray>", e);
+          if (empty_tag || close == std::string::npos) { v.error = "unterminated DataArray " + name; return v; }
+          if (compressed) { v.error = "inline compressed data is not produced by any documented mode"; return v; }
+          size_t q = e + 1;
+          while (q < close && std::isspace(static_cast<unsigned char>(t[q]))) ++q;
+          std::vector<unsigned char> h;
+          if (!b64_take(t, q, close, hs, h)) { v.error = "DataArray " + name + ": base64 length header unreadable"; return v; }
+          const uint64_t nbytes = header_value(h.data());
+          // bytes decoded beyond the header within the same quanta belong to the data (header and data encoded as one stream)
+          std::vector<unsigned char> rest(h.begin() + static_cast<long>(hs), h.end());
+          if (nbytes > t.size()) { v.error = "DataArray " + name + ": length header says " + std::to_string(nbytes) + " bytes, the file has " + std::to_string(t.size()); return v; }
+          std::vector<unsigned char> d;
+          if (nbytes > rest.size() && !b64_take(t, q, close, nbytes - rest.size(), d)) { v.error = "DataArray " + name + ": base64 data shorter than the " + std::to_string(nbytes) + " bytes its header announces"; return v; }
+          bytes = rest; bytes.insert(bytes.end(), d.begin(), d.end()); bytes.resize(nbytes);
+          while (q < close && std::isspace(static_cast<unsigned char>(t[q]))) ++q;
+          if (q != close) { v.error = "DataArray " + name + ": characters left after the announced " + std::to_string(nbytes) + " bytes"; return v; }
+          have_bytes = true;
+        }
+      else if (fmt_ == "appended")
+        {
+          if (app_begin == std::string::npos) { v.error = "DataArray " + name + " is appended but the file has no AppendedData section"; return v; }
+          const std::string off = attr(tag, "offset");
+          if (off.empty()) { v.error = "DataArray " + name + ": no offset"; return v; }
+          const size_t offset = static_cast<size_t>(std::atoll(off.c_str()));
+          if (app_begin + offset >= app_end) { v.error = "DataArray " + name + ": offset " + off + " lies outside the appended data (" + std::to_string(app_end - app_begin) + " bytes)"; return v; }
+          if (!empty_tag) { close = t.find("</DataArray>", e); if (close == std::string::npos) { v.error = "unterminated DataArray " + name; return v; } }
+          if (app_encoding == "base64")
+            {
+              if (compressed) { v.error = "base64 + compressor is not produced by any documented mode"; return v; }
+              if (offset % 4 != 0) { v.error = "DataArray " + name + ": base64 offset " + off + " is not a multiple of 4"; return v; }
+              size_t q = app_begin + offset;
+              std::vector<unsigned char> h;
+              if (!b64_take(t, q, app_end, hs, h)) { v.error = "DataArray " + name + ": base64 length header at offset " + off + " unreadable"; return v; }
+              const uint64_t nbytes = header_value(h.data());
+              if (nbytes > t.size()) { v.error = "DataArray " + name + ": the length header found at offset " + off + " says " + std::to_string(nbytes) + " bytes, the whole file has " + std::to_string(t.size()); return v; }
+              std::vector<unsigned char> rest(h.begin() + static_cast<long>(hs), h.end()), d;
+              if (nbytes > rest.size() && !b64_take(t, q, app_end, nbytes - rest.size(), d)) { v.error = "DataArray " + name + ": appended base64 data shorter than the " + std::to_string(nbytes) + " bytes announced at offset " + off; return v; }
+              bytes = rest; bytes.insert(bytes.end(), d.begin(), d.end()); bytes.resize(nbytes);
+            }
+          else
+            {
+              const unsigned char *base = reinterpret_cast<const unsigned char *>(t.data()) + app_begin + offset;
+              const size_t avail = app_end - (app_begin + offset);
+              if (!compressed)
+                {
+                  if (avail < hs) { v.error = "DataArray " + name + ": no room for a length header at offset " + off; return v; }
+                  const uint64_t nbytes = header_value(base);
+                  if (nbytes > avail - hs) { v.error = "DataArray " + name + ": the length header at offset " + off + " says " + std::to_string(nbytes) + " bytes, only " + std::to_string(avail - hs) + " follow"; return v; }
+                  bytes.assign(base + hs, base + hs + nbytes);
+                }
+              else
+                {
+#ifdef VF_HAVE_ZLIB
+                  if (avail < 3 * hs) { v.error = "DataArray " + name + ": no room for a compression header at offset " + off; return v; }
+                  const uint64_t nblocks = header_value(base), bsize = header_value(base + hs), last = header_value(base + 2 * hs);
+                  if (nblocks > avail / hs || avail < (3 + nblocks) * hs) { v.error = "DataArray " + name + ": compression header at offset " + off + " announces " + std::to_string(nblocks) + " blocks"; return v; }
+                  size_t at = (3 + nblocks) * hs;
+                  for (uint64_t b = 0; b < nblocks; ++b)
+                    {
+                      const uint64_t csize = header_value(base + (3 + b) * hs);
+                      if (csize > avail - at) { v.error = "DataArray " + name + ": compressed block " + std::to_string(b) + " exceeds the file"; return v; }
+                      const uint64_t usize = (b + 1 == nblocks && last != 0) ? last : bsize;
+                      std::vector<unsigned char> ub(usize);
+                      uLongf got = usize;
+                      if (uncompress(ub.data(), &got, base + at, csize) != Z_OK || got != usize) { v.error = "DataArray " + name + ": zlib block " + std::to_string(b) + " does not inflate to the announced " + std::to_string(usize) + " bytes"; return v; }
+                      bytes.insert(bytes.end(), ub.begin(), ub.end());
+                      at += csize;
+                    }
+#else
+                  v.error = "compressed file but the harness was built without zlib"; return v;
+#endif
+                }
+            }
+          have_bytes = true;
+        }
+      else { v.error = "DataArray " + name + ": format '" + fmt_ + "'"; return v; }
+      if (have_bytes)
+        {
+          if (bytes.size() % ts != 0) { v.error = "DataArray " + name + ": " + std::to_string(bytes.size()) + " bytes are not a whole number of " + type + " values"; return v; }
+          vals.reserve(bytes.size() / ts);
+          for (size_t i = 0; i < bytes.size(); i += ts) vals.push_back(read_as(type, bytes.data() + i));
+        }
+      if (v.arrays.count(name)) { v.error = "two DataArrays named '" + name + "'"; return v; }
       v.arrays[name] = vals;
-      pos = close;
+      pos = close + 1;
     }
   v.ok = true;
   return v;
@@ -111,6 +300,8 @@ static J gen_grid(Chooser &ch)
   c["nz"] = static_cast<int>(ch.range(1, type == "annulus" ? 3 : 10));
   c["j"] = ch.pick<int>({1, 2, 3, 7});
   c["flags"] = ch.pick<std::string>({"", "--filtered", "--by-tag", "--filtered --by-tag"});
+  // every write mode the tool passes on to its VTU writer; "" = the line is absent (documented default: ASCII)
+  c["format"] = ch.pick<std::string>({"ASCII", "ASCII", "", "Base64Inline", "Base64Appended", "Base64Appended", "RawBinary", "RawBinaryCompressed", "RawBinaryCompressed", "base64appended"});
   c["sph"] = w.fr.sph; c["R"] = w.fr.R; c["H"] = w.fr.H;
   return c;
 }
@@ -129,7 +320,9 @@ static Result check_grid(const J &c)
   const int dim = static_cast<int>(c.at("dim").num());
   const unsigned ncomp = static_cast<unsigned>(c.at("compositions").num());
   const size_t nx = static_cast<size_t>(c.at("nx").num()), ny = static_cast<size_t>(c.at("ny").num()), nz = static_cast<size_t>(c.at("nz").num());
-  std::string grid = "grid_type = " + type + "\ndim = " + std::to_string(dim) + "\ncompositions = " + std::to_string(ncomp) + "\nvtu_output_format = ASCII\n";
+  std::string grid = "grid_type = " + type + "\ndim = " + std::to_string(dim) + "\ncompositions = " + std::to_string(ncomp) + "\n";
+  const std::string format = c.has("format") ? c.at("format").str() : "ASCII";
+  if (!format.empty()) grid += "vtu_output_format = " + format + "\n";
   for (const char *k : {"x_min", "x_max", "y_min", "y_max", "z_min", "z_max"}) grid += std::string(k) + " = " + fmt(c.at(k).num()) + "\n";
   grid += "n_cell_x = " + std::to_string(nx) + "\nn_cell_y = " + std::to_string(ny) + "\nn_cell_z = " + std::to_string(nz) + "\n";
   write_file(dir + "/g.grid", grid);
@@ -137,6 +330,7 @@ static Result check_grid(const J &c)
   const int rc = run_cmd("cd '" + dir + "' && '" + exe + "' -j " + std::to_string(static_cast<int>(c.at("j").num())) + " " + c.at("flags").str() + " w.wb g.grid 2>&1", out);
   auto W = make_world(c.at("world").str());
   r.classes.push_back(type + " dim=" + std::to_string(dim));
+  r.classes.push_back("format=" + (format.empty() ? std::string("<default>") : format));
   if (rc != 0) return Result::fail("grid-run-failed", "gwb-grid ended with status " + std::to_string(rc) + " on a valid grid file: " + out.substr(0, 400));
   const Vtu v = read_vtu(dir + "/w.vtu");
   if (!v.ok) return Result::fail("vtu-malformed", "main output: " + v.error);
